@@ -254,8 +254,10 @@ def sigma_filter(filename, region, step_size, box_size, shape, domask,
     barrier.wait()
 
     logging.debug("background subtraction")
-    data[0 + ymin - data_row_min: data.shape[0] -
-         (data_row_max - ymax), :] -= ibkg[ymin:ymax, :]
+    # subtract the background from every row that can enter an rms box. The
+    # margin rows belong to neighbouring stripes, whose background is
+    # complete now that all stripes have passed the barrier.
+    data -= ibkg[data_row_min:data_row_max, :]
     logging.debug(".. done ")
 
     # reset/recycle the vals array
